@@ -397,7 +397,67 @@ def rule_multipath_step_grammar(ctx: Ctx, rep: Report) -> None:
     rep.floor(rule, 1)
 
 
+def rule_strict_paths_everywhere(ctx: Ctx, rep: Report) -> None:
+    """C14.strict_paths_everywhere: a derivation path inside a descriptor is BIP380's
+    strict spelling -- decimal digits and h / H / ' -- wherever it stands: after
+    a key, in a key origin, after a musig() expression. The descriptor layer's
+    reader of path text (`_der_path`) asks `indexes_from_der_path` for the
+    enforced grammar; left to the lenient one, `tr(musig(A,B)/+1/*)`, `/1_0/*`
+    and `/1//*` parse, and read as descriptors that were never written."""
+    rule = "C14.strict_paths_everywhere"
+    n = 0
+    for q, fi in sorted(ctx.prog.functions.items()):
+        if not q.startswith("btclib.descriptors."):
+            continue
+        for c in own_nodes(fi.node):
+            if isinstance(c, ast.Call) and call_name(c) in ("indexes_from_der_path", "_indexes_from_der_path", "_pairs_from_der_path") and c.args:
+                # only text is spelled: a call handed a list of ints has no grammar to enforce
+                a0 = c.args[0]
+                texty = isinstance(a0, ast.Name) and any(p_.arg == a0.id and p_.annotation is not None and str(norm(p_.annotation)) == "str" for p_ in fi.node.args.posonlyargs + fi.node.args.args)
+                if not texty:
+                    continue
+                n += 1
+                ok = any(k.arg == "bip380_enforced" and isinstance(k.value, ast.Constant) and k.value.value is True for k in c.keywords)
+                rep.ob(rule, f"{q}:{call_name(c)}", ok, fi.where(c), "the strict grammar is asked for" if ok else
+                       f"`{norm(c)[:60]}` reads descriptor text with the lenient path grammar: +1, 1_0, blanks and empty steps are accepted inside a descriptor")
+    rep.floor(rule, 1)
+
+
+def rule_rebuilt_leaf_keeps_its_fields(ctx: Ctx, rep: Report) -> None:
+    """C14.rebuilt_leaf_keeps_its_fields: `at_index` and `normalized` rebuild every
+    node of a descriptor with its keys mapped and everything else as it was. A
+    dataclass node is therefore rebuilt with `replace(node, keys=...)` -- which
+    keeps the fields it does not name -- and not by calling the class with the
+    fields the author remembered: `MultiA(threshold, keys)` drops `sort`, and
+    `sortedmulti_a()` at index 5 becomes a `multi_a()` of another script."""
+    rule = "C14.rebuilt_leaf_keeps_its_fields"
+    fi = ctx.func("btclib.descriptors.descriptors._mapped_field")
+    n = 0
+    for i in own_nodes(fi.node):
+        if isinstance(i, ast.If) and isinstance(i.test, ast.Call) and call_name(i.test) == "isinstance" and len(i.test.args) == 2 and isinstance(i.test.args[1], ast.Name):
+            cls = i.test.args[1].id
+            ci = next((c for q_, c in ctx.prog.classes.items() if q_.endswith("." + cls)), None)
+            if ci is None or len(ci.fields()) < 2:
+                continue
+            for r in i.body:
+                if isinstance(r, ast.Return) and isinstance(r.value, ast.Call):
+                    fn = call_name(r.value)
+                    if fn == cls:
+                        n += 1
+                        given = len(r.value.args) + len(r.value.keywords)
+                        ok = given >= len(ci.fields())
+                        rep.ob(rule, f"_mapped_field:{cls}", ok, fi.where(r), f"{cls} rebuilt with all {len(ci.fields())} fields" if ok else
+                               f"`{norm(r.value)[:70]}` rebuilds a {cls} from {given} of its {len(ci.fields())} fields ({ci.fields()}): the others fall back to their defaults")
+                    elif fn == "replace":
+                        n += 1
+                        rep.ob(rule, f"_mapped_field:{cls}", True, fi.where(r), f"{cls} rebuilt with replace(): the fields not named are kept")
+    rep.floor(rule, 1)
+
+
 RULES = [
+    ("C14.strict_paths_everywhere", rule_strict_paths_everywhere),
+    ("C14.rebuilt_leaf_keeps_its_fields", rule_rebuilt_leaf_keeps_its_fields),
+
     ("C14.multipath_step_grammar", rule_multipath_step_grammar),
 
     ("C14.text_reads_back", rule_text_reads_back),
